@@ -292,6 +292,19 @@ class Run:
         except Exception:
             base = {}
         self.changed_fns = sorted(k for k, v in self.facts.get("hashes", {}).items() if base.get(k) not in (None, v))
+        # the regenerated source tie: every function the property's models stand on, against the committed expectations
+        import fnmatch
+        try:
+            tbase = json.load(open(os.path.join(ROOT, "baseline_ties.json")))
+        except Exception:
+            tbase = {}
+        tnow = self.facts.get("ties", {})
+        pats = P.TIES.get(self.prop, [])
+        tied = lambda k: any(fnmatch.fnmatchcase(k, p) for p in pats)
+        self.broken_ties = sorted(k for k in set(tnow) | set(tbase) if tied(k) and tnow.get(k) != tbase.get(k)) if tbase else []
+        self.tied_count = sum(1 for k in tnow if tied(k))
+        if self.broken_ties:
+            self.changed_fns = sorted(set(self.changed_fns) | set(self.broken_ties))
         seeds = [self.seed] + ([self.seed + 1000, self.seed + 2000] if self.changed_fns and self.tier == "quick" else [])
         if self.changed_fns:
             self.say("source text of modelled functions changed since the baseline:", ", ".join(self.changed_fns), "-> seeds", seeds)
@@ -302,6 +315,12 @@ class Run:
                 self.correspond(spec, cases)
         for fn in self.cfg.get("extra", []):
             fn(self)
+        if self.broken_ties:
+            thms = [t["name"] for t in self.cfg.get("theorems", [])]
+            self.viol.append(Violation("G", "source tie broken: the code of " + ", ".join(self.broken_ties) + " differs from the source the Lean model was written and validated against "
+                                       "(baseline_ties.json); the theorems no longer speak about this code until the model is re-validated",
+                                       case="tie: " + " ".join(self.broken_ties), impl="regenerated hashes differ", expected="hashes of baseline_ties.json",
+                                       extra=dict(theorem=thms[:60], functions=self.broken_ties)))
         self.say(f"K/O: {self.cov['evaluations']} evaluations, {len(self.cov['distinct'])} distinct non-trivial, "
                  f"{self.cov['oracle_queries']} spec-oracle queries, {len(self.viol)} finding(s)")
         # S: search for a concrete failing input when only a proof/tie/correspondence broke
@@ -410,9 +429,11 @@ class Run:
             histogram=self.cov["hist"],
             spec_oracle_queries=self.cov["oracle_queries"],
             regenerated_changed=self.gen_changed,
-            regenerated_facts={k: v for k, v in self.facts.items() if k != "hashes"},
+            regenerated_facts={k: v for k, v in self.facts.items() if k not in ("hashes", "ties")},
             source_hashes=self.facts.get("hashes", {}),
             changed_since_baseline=getattr(self, "changed_fns", []),
+            source_ties=dict(functions_tied=getattr(self, "tied_count", 0), broken=getattr(self, "broken_ties", []),
+                             expectations="baseline_ties.json (hashes of the comment-free syntax trees the models were written against)"),
             known_findings_hit=[k["id"] for k in self.known_hits],
         )
         if cfg.get("exhaustive"):
